@@ -1,5 +1,6 @@
 #include "judge.hpp"
 
+#include <cstdlib>
 #include <sstream>
 
 #include <fcntl.h>
@@ -339,8 +340,47 @@ namespace sim
          all.clear();
       }
 
+      // Bounded progress. Every loop of the wired grammars has a body that cannot succeed without consuming
+      // (gen.cpp: well_formed), and every other combinator attempts a bounded number of sub-rules. So a run that
+      // exhausts the event budget while ONE rule invocation started more than 300 consecutive sub-rule attempts
+      // at the same cursor position is not an expensive parse but a loop that makes no progress.
+      void detect_spin( const RunResult& r, Verdict& v )
+      {
+         struct Fr
+         {
+            std::uint32_t rule, last_pos, same;
+         };
+         std::vector< Fr > st;
+         for( const Event& e : r.h ) {
+            if( e.kind == Ev::ENTER ) {
+               if( !st.empty() && ( e.flags & F_NOPOS ) == 0 ) {
+                  Fr& p = st.back();
+                  if( p.same != 0 && p.last_pos == e.pos ) {
+                     if( ++p.same > 300 ) {
+                        v.spinning = true;
+                        v.spin_detail = "rule #" + std::to_string( p.rule ) + " attempted more than 300 sub-rules in a row at position " + std::to_string( e.pos ) + " and the run exhausted its event budget";
+                        v.spin_rule = p.rule;
+                        return;
+                     }
+                  }
+                  else {
+                     p.same = 1;
+                     p.last_pos = e.pos;
+                  }
+               }
+               st.push_back( Fr{ e.rule, 0, 0 } );
+            }
+            else if( ( e.kind == Ev::EXIT || e.kind == Ev::EXC ) && !st.empty() ) {
+               st.pop_back();
+            }
+         }
+      }
+
       void account( const RunResult& r, Verdict& v )
       {
+         if( r.aborted && !v.spinning ) {
+            detect_spin( r, v );
+         }
          v.events += r.h.size();
          for( const Event& e : r.h ) {
             if( e.kind == Ev::READ ) {
@@ -376,7 +416,29 @@ namespace sim
       return true;
    }
 
+   namespace
+   {
+      Verdict judge_impl( const Job& j );
+   }
+
    Verdict judge( const Job& j )
+   {
+      Verdict v = judge_impl( j );
+      if( v.spinning ) {
+         // reported under the job's own property: whatever it promises about results presupposes that there is one
+         Violation x;
+         x.oracle = j.check + ".progress";
+         x.key = ( v.spin_rule < g_rules.size() ) ? g_rules[ v.spin_rule ].name.substr( 0, g_rules[ v.spin_rule ].name.find( '<' ) ) : std::string( "?" );
+         x.detail = v.spin_detail + " (" + ( v.spin_rule < g_rules.size() ? g_rules[ v.spin_rule ].name : std::string( "?" ) ) + ")";
+         v.own.push_back( std::move( x ) );
+         v.discarded = false;
+      }
+      return v;
+   }
+
+   namespace
+   {
+   Verdict judge_impl( const Job& j )
    {
       Verdict v;
       std::vector< Violation > all;
@@ -471,6 +533,7 @@ namespace sim
       split( j, all, v );
       return v;
    }
+   }  // namespace
 
    bool is_fatal_oracle( const std::string& oracle )
    {
@@ -490,6 +553,9 @@ namespace sim
             ::dup2( nul, 1 );
             ::dup2( nul, 2 );
          }
+         // a run that does not end counts as one that ends the process (SIGALRM kills the child)
+         const char* hs = std::getenv( "PEGSIM_HANG_S" );
+         ::alarm( hs ? static_cast< unsigned >( std::atoi( hs ) ) : 20u );
          const Verdict v = judge( j );
          int code = 0;
          for( const auto& x : v.own ) {
